@@ -594,6 +594,18 @@ impl<'a> VisitMut for Rewriter<'a> {
                 }
             }
         }
+        // R16: `format!(..)` in expression position becomes `vx_format()` (an unconstrained String): the contracts
+        // never depend on message text; arguments must be side-effect free (R2's allow-list)
+        if let syn::Expr::Macro(m) = e {
+            let last = m.mac.path.segments.last().map(|s| s.ident.to_string()).unwrap_or_default();
+            if last == "format" {
+                if !log_args_side_effect_free(&m.mac.tokens) {
+                    die(format!("R16 refuses: format! argument outside the side-effect-free allow-list: {}", m.mac.tokens));
+                }
+                *e = syn::parse_quote!(vx_format());
+                self.rules.insert("R16".into());
+            }
+        }
         visit_mut::visit_expr_mut(self, e);
         // R15 (after visiting children, so nested `?` are handled innermost first)
         if self.desugar_try {
@@ -1489,8 +1501,11 @@ fn main() {
                 continue;
             }
             // a top-level item start closes the current function range
-            if !line.starts_with(' ') && !line.is_empty() && !line.starts_with('}') && !line.starts_with('#') && !line.starts_with(')') {
+            // a closing brace in column 0 ends the current free fn / the impl block holding the current method
+            if *line == "}" {
+                push_line(&mut final_out, &mut line_no, line);
                 if let Some(c) = cur_fn.take() { gen.fns[c].out_line_end = line_no; }
+                continue;
             }
         }
         push_line(&mut final_out, &mut line_no, line);
